@@ -10,7 +10,8 @@ Verdict(e) ==
         ELSE "")
   ELSE IF e.crc # Crc32(e.data) THEN "crc-value"
   ELSE IF e.crc_appended # <<0, 0, 0, 0>> THEN "residue-nonzero"
-  ELSE IF ~e.input_same THEN "input-modified"
+  ELSE IF ~e.input_same THEN "input-or-surrounding-bytes-modified"
+  ELSE IF ~e.earlier_same THEN "checksum-returned-earlier-changed-by-a-later-call"
   ELSE ""
 Init == l = 1
 Next == /\ l <= Len(Trace) /\ l' = l + 1
